@@ -1177,7 +1177,7 @@ pub fn run(args: &Args) {
         let _ = repro_length_loop(args, v.parse().expect("C13_REPRO_LENGTH=<u32>"));
         return;
     }
-    let mut sink = Sink::new("C13", &args.out, &["Model.Oov", "Model.OovBuffer"], args.seed, &args.tier);
+    let mut sink = Sink::new("C13", &args.out, &["Model.Oov", "Model.OovBuffer", "Model.PathResolve"], args.seed, &args.tier);
     sink.shard_size = 40;
     sink.rule("generated char.def (24 code points incl. combining marks, skin-tone modifier, VS16, ZWJ, 4-byte emoji; natural or random class sets with several classes per character, class ALL, NOOOVBOW, NOOOVBOW2; classes without definition) x unk.def (0..3 definitions per class, invoke/group/length 0..80) x 1..3 providers in random order (MeCab, Simple, Regex with strict/relaxed boundaries, max length, debug, patterns with backtracking / alternation / empty match) x small random lexicon x texts (dictionary words, class runs, base+marks, lone marks, runs > 64); the 5 texts of a configuration form a SESSION over one reused InputBuffer, one StatefulTokenizer and one MorphemeList (collect_results), with single-character-run texts over the positions of the text two steps earlier and prefixes of the previous text, each step compared with the model and with new objects; class lengths include 3000000 and 4294967295; plus a 'segments' stream (every 5th configuration): the text is 2-4 runs of distinct characters, one or more of 58-88 characters, and 3-5 Regex providers (maxLength 100/400, strict/relaxed) each match a contiguous range of those runs, often ending where another pattern ends, mixed with MeCab/Simple -- so long candidates (>= 64, CreatedWords answers Maybe) with different ends start at one position and candidates from different positions share an end; each case observes the built InputBuffer, every provider through the trait at all (or sampled) offsets with several CreatedWords, and the lattice of a real tokenization; non-trivial = the text has a character with several classes or some provider call produced a candidate; distinct by generated Coq term");
     if let Some(p) = &args.replay {
@@ -1337,10 +1337,26 @@ pub fn run(args: &Args) {
 const FILE_DEFS: [(bool, u32, i16); 3] = [(true, 0, 1000), (false, 3, 1001), (false, 1, 1002)];
 const DIR_NAMES: [&str; 3] = ["`path` of the settings", "the resource directory", "the directory of the settings file"];
 
+/// one case of the settings-file route: the Coq term sends the presence patterns and the location whose file the
+/// implementation used (identified by the candidates it produced) through Model/PathResolve.v's check_resolve
 fn file_route_case(sink: &mut Sink, args: &Args, use_path: bool, char_in: [bool; 3], unk_in: [bool; 3], text: &str, tag: &str, verbose: bool) {
     let desc = json!({"kind": "c13-files", "use_path": use_path, "char_def_in": char_in, "unk_def_in": unk_in, "text": text, "tag": tag});
-    let id = sink.case_rust_only(desc, true);
+    let (fails, chosen) = file_route_observe(args, use_path, char_in, unk_in, text, verbose);
+    let pat = |p: &[bool; 3]| clist([use_path && p[0], p[1], p[2], false].iter().map(|b| cbool(*b).to_string()));
+    let id = match chosen {
+        Some((c, u)) => sink.case(format!("andb (check_resolve {} {}%nat) (check_resolve {} {}%nat)", pat(&char_in), c, pat(&unk_in), u), desc, true),
+        None => sink.case_rust_only(desc, true),
+    };
     sink.tag("file_route");
+    for f in fails {
+        sink.fail(id, &f, "");
+    }
+}
+
+/// (oracle failures, location (0 path, 1 resource directory, 2 settings-file directory, 4 = loading failed) whose char.def /
+/// unk.def the loaded provider evidently used -- None when the candidates do not identify it)
+fn file_route_observe(args: &Args, use_path: bool, char_in: [bool; 3], unk_in: [bool; 3], text: &str, verbose: bool) -> (Vec<String>, Option<(usize, usize)>) {
+    let mut fails: Vec<String> = vec![];
     let root = args.work.join(format!("c13res-{}", std::process::id())).join("files");
     let _ = std::fs::remove_dir_all(&root);
     let dirs: Vec<PathBuf> = ["path", "resource", "settings"].iter().map(|d| root.join(d)).collect();
@@ -1359,7 +1375,7 @@ fn file_route_case(sink: &mut Sink, args: &Args, use_path: bool, char_in: [bool;
     let sel = |present: &[bool; 3]| order.iter().copied().find(|k| present[*k]);
     let (csel, usel) = match (sel(&char_in), sel(&unk_in)) {
         (Some(c), Some(u)) => (c, u),
-        _ => return, // a file that is nowhere: not a case
+        _ => return (fails, None), // a file that is nowhere: not a case
     };
     let mut b = DictBuilder::new_system();
     b.read_conn("1 1\n0 0 0\n".as_bytes()).unwrap();
@@ -1383,15 +1399,15 @@ fn file_route_case(sink: &mut Sink, args: &Args, use_path: bool, char_in: [bool;
     let dict = match loaded {
         Ok(Ok(d)) => d,
         other => {
-            sink.fail(id, &format!("settings file + resource directory (char.def in {:?}, unk.def in {:?}): the dictionary does not load: {}", char_in, unk_in, match other { Ok(Err(e)) => e, Err(p) => format!("panic: {}", p), Ok(Ok(_)) => String::new() }), "");
-            return;
+            fails.push(format!("settings file + resource directory (char.def in {:?}, unk.def in {:?}): the dictionary does not load: {}", char_in, unk_in, match other { Ok(Err(e)) => e, Err(p) => format!("panic: {}", p), Ok(Ok(_)) => String::new() }));
+            return (fails, Some((4, 4)));
         }
     };
     // candidates of the MeCab provider at the first ALPHA character
     let chars: Vec<char> = text.chars().collect();
     let off = match chars.iter().position(|c| c.is_ascii_lowercase()) {
         Some(o) => o,
-        None => return,
+        None => return (fails, None),
     };
     let run = chars[off..].iter().take_while(|c| c.is_ascii_lowercase()).count();
     let mut buf = InputBuffer::from(text);
@@ -1427,16 +1443,30 @@ fn file_route_case(sink: &mut Sink, args: &Args, use_path: bool, char_in: [bool;
                 v.iter().map(|x| (x.0, 0i16)).collect::<Vec<_>>() == w
             }).map(|k| DIR_NAMES[k]).collect::<Vec<_>>().join(" / ")
         };
-        sink.fail(
-            id,
-            &format!(
+        fails.push(
+            format!(
                 "settings file in one directory, explicit resource directory another{}; char.def present in [path, resource, settings] = {:?}, unk.def {:?}: text {:?}, OOV candidates (end, cost) at offset {} are {:?} (ends as in the char.def of: {}); the lookup order (path, resource directory, settings-file directory) selects char.def of {} and unk.def of {}: {:?}",
                 if use_path { ", `path` a third" } else { "" }, char_in, unk_in, text, off, got, which(&got), DIR_NAMES[csel], DIR_NAMES[usel], want
             ),
-            "",
         );
     }
+    // which directory's files were used: the cost names the unk.def; the set of ends names the char.def when the run is long enough
+    let ends = |k: usize| -> Vec<usize> {
+        let (g2, l2, _) = FILE_DEFS[k];
+        let mut w: Vec<usize> = vec![];
+        if g2 { w.push(off + run); }
+        for j in 1..=usize::min(l2 as usize, if g2 { run - 1 } else { run }) { w.push(off + j); }
+        w.sort();
+        w
+    };
+    let got_ends: Vec<usize> = got.iter().map(|x| x.0).collect();
+    let cands: Vec<usize> = (0..3).filter(|k| ends(*k) == got_ends).collect();
+    let costs: Vec<i16> = got.iter().map(|x| x.1).collect();
+    let ucands: Vec<usize> = (0..3).filter(|k| !costs.is_empty() && costs.iter().all(|c| *c == FILE_DEFS[*k].2)).collect();
+    let chosen = if cands.len() == 1 && ucands.len() == 1 { Some((cands[0], ucands[0])) } else { None };
+    (fails, chosen)
 }
+
 
 fn file_route_stream(sink: &mut Sink, rng: &mut Rng, args: &Args) {
     // directed: both directories have both files (no `path`); all three; only beside the settings file; split
